@@ -59,7 +59,7 @@ static Verdict try_import_forked(World &w, Type &T, bool file, const std::string
         std::string consumed = input.substr(0, (size_t)pos);
         if (re == consumed || re == consumed + "\n") stat_sum("v_faithful", 1);
         else { stat_sum("v_silent", 1); violation("x", fmt("returned normally%s after consuming %ld of %zu input bytes; the object re-exports to %zu bytes that are not the consumed input", file ? "" : " with a clean stream", pos, input.size(), re.size())); }
-    }, 60);
+    }, 60, true, true);   // strict: an import that does not terminate within 60 s is a verdict
     std::string cur = curkey(); current(k0);
     bool asan = f.text.find("AddressSanitizer") != std::string::npos;
     if (asan) { bool nullpage = f.text.find("SEGV on unknown address 0x000000000") != std::string::npos || f.text.find("SEGV on unknown address (pc") != std::string::npos;
